@@ -100,8 +100,11 @@ def macrostep_boundary(rep, fb, rule):
             names = {s.get('ref', {}).get('name') for s in sub(cn)}
             if '_flags' in names and any(tab.const_of(s) == 1 for s in sub(cn)) and any(s['k'] == 'BinaryOperator' and s.get('op') == '&' for s in sub(cn)):
                 spont_blocks.append(bid)
-            if any(s is inte[0] or s.get('id') == inte[0]['id'] for s in sub(cn)):
-                int_blocks.append(bid)
+
+        from ._skel import result_test_blocks
+        int_blocks = result_test_blocks(f, g, inte[0])
+        if not int_blocks:
+            raise AnalysisBroken('%s: no condition tests the result of dequeueInternal' % eq)
         a_ok = any(edge_dominates(g, bid, False, tb) for bid in spont_blocks)
         b_ok = any(edge_dominates(g, bid, False, tb) for bid in int_blocks)
         rep.check(a_ok, rule, eng + '|spontaneous-before-external', locstr(ext[0]), 'dequeueExternal only on the false edge of the SPONTANEOUS test: %s' % a_ok)
